@@ -1522,3 +1522,218 @@ def _(ex, a):
     if len(cands) != 1:
         raise Unsupported('visit_seq not found for ' + fl)
     return ex.call_fn(cands[0][0], [vis, a[0]])
+
+
+# ------------------------------------------------------------------ BTreeSet / BTreeMap (sorted lists, element Ord through gdsl's MIR)
+def value_cmp(ex, ra, rb):
+    """Ord::cmp of two values behind references -> -1 / 0 / 1 (branching on symbolic data)"""
+    x, y = ex.deref(ra), ex.deref(rb)
+    if isinstance(x, Agg) and x.kind == 'Reverse':
+        return value_cmp(ex, Ref(rb.cell, tuple(rb.path) + (('f', 0),)), Ref(ra.cell, tuple(ra.path) + (('f', 0),)))
+    if isinstance(x, Agg) and x.kind.startswith(FLAVOURS):
+        return ex.call(f'<{x.kind}<K, N, E> as Ord>::cmp', [ra, rb]).variant
+    if isinstance(x, Agg) and x.kind == 'tuple':
+        for i in range(len(x.f)):
+            c = value_cmp(ex, Ref(ra.cell, tuple(ra.path) + (('f', i),)), Ref(rb.cell, tuple(rb.path) + (('f', i),)))
+            if c != 0:
+                return c
+        return 0
+    if isinstance(x, Agg):
+        raise Unsupported('Ord::cmp on ' + x.kind)
+    return int_cmp(ex, x, y).variant
+
+
+def _bt_locate(ex, sref, keyref, keyof=None):
+    """-> (index, found) in the sorted element list of the container behind sref"""
+    s = ex.deref(sref)
+    for i in range(len(s.f)):
+        er = elem_ref(sref, i)
+        if keyof:
+            er = Ref(er.cell, tuple(er.path) + (('f', 0),))
+        c = value_cmp(ex, keyref, er)
+        if c == 0:
+            return i, True
+        if c < 0:
+            return i, False
+    return len(s.f), False
+
+
+@prim('BTreeSet::new', 'BTreeMap::new', '<BTreeSet as Default>::default', '<BTreeMap as Default>::default')
+def _(ex, a):
+    return Agg('BTree', [])
+
+
+@prim('<BTreeSet as From>::from', '<BTreeSet as FromIterator>::from_iter')
+def _(ex, a):
+    items = list(a[0].f) if a[0].kind in ('array', 'Vec') else drain(ex, a[0])
+    c = Cell(Agg('BTree', []))
+    for it in items:
+        P['BTreeSet::insert'](ex, [Ref(c), it])
+    return c.v
+
+
+@prim('BTreeSet::insert')
+def _(ex, a):
+    i, found = _bt_locate(ex, a[0], Ref(Cell(a[1])))
+    if found:
+        ex.drop(a[1])
+        return False
+    ex.deref(a[0]).f.insert(i, a[1])
+    return True
+
+
+@prim('BTreeSet::contains', 'BTreeMap::contains_key')
+def _(ex, a):
+    s = ex.deref(a[0])
+    keyed = bool(s.f) and isinstance(s.f[0], Agg) and s.f[0].kind == 'BTEntry'
+    return _bt_locate(ex, a[0], a[1], keyof=keyed)[1]
+
+
+@prim('BTreeSet::remove')
+def _(ex, a):
+    i, found = _bt_locate(ex, a[0], a[1])
+    if found:
+        ex.drop(ex.deref(a[0]).f.pop(i))
+    return found
+
+
+@prim('BTreeSet::take')
+def _(ex, a):
+    i, found = _bt_locate(ex, a[0], a[1])
+    return Some(ex.deref(a[0]).f.pop(i)) if found else NONE()
+
+
+@prim('BTreeSet::pop_first')
+def _(ex, a):
+    s = ex.deref(a[0])
+    return Some(s.f.pop(0)) if s.f else NONE()
+
+
+@prim('BTreeSet::pop_last')
+def _(ex, a):
+    s = ex.deref(a[0])
+    return Some(s.f.pop()) if s.f else NONE()
+
+
+@prim('BTreeSet::first')
+def _(ex, a):
+    return Some(elem_ref(a[0], 0)) if ex.deref(a[0]).f else NONE()
+
+
+@prim('BTreeSet::last')
+def _(ex, a):
+    s = ex.deref(a[0])
+    return Some(elem_ref(a[0], len(s.f) - 1)) if s.f else NONE()
+
+
+@prim('BTreeSet::len', 'BTreeMap::len')
+def _(ex, a):
+    return len(ex.deref(a[0]).f)
+
+
+@prim('BTreeSet::is_empty', 'BTreeMap::is_empty')
+def _(ex, a):
+    return len(ex.deref(a[0]).f) == 0
+
+
+@prim('BTreeSet::iter', '<&BTreeSet as IntoIterator>::into_iter')
+def _(ex, a):
+    return Agg('SliceIter', [a[0], 0, None])
+
+
+@prim('<BTreeSet as IntoIterator>::into_iter')
+def _(ex, a):
+    return Agg('VecIntoIter', list(a[0].f))
+
+
+@prim('BTreeSet::clear', 'BTreeMap::clear')
+def _(ex, a):
+    s = ex.deref(a[0])
+    items = s.f[:]
+    del s.f[:]
+    for x in items:
+        ex.drop(x)
+    return UNIT()
+
+
+@prim('BTreeMap::insert')
+def _(ex, a):
+    i, found = _bt_locate(ex, a[0], Ref(Cell(a[1])), keyof=True)
+    m = ex.deref(a[0])
+    if found:
+        old = m.f[i].f[1]
+        m.f[i].f[1] = a[2]
+        ex.drop(a[1])
+        return Some(old)
+    m.f.insert(i, Agg('BTEntry', [a[1], a[2]]))
+    return NONE()
+
+
+@prim('BTreeMap::get', 'BTreeMap::get_mut')
+def _(ex, a):
+    i, found = _bt_locate(ex, a[0], a[1], keyof=True)
+    if not found:
+        return NONE()
+    return Some(Ref(a[0].cell, tuple(a[0].path) + (('i', i), ('f', 1))))
+
+
+@prim('BTreeMap::remove')
+def _(ex, a):
+    i, found = _bt_locate(ex, a[0], a[1], keyof=True)
+    if not found:
+        return NONE()
+    e = ex.deref(a[0]).f.pop(i)
+    ex.drop(e.f[0])
+    return Some(e.f[1])
+
+
+@prim('BTreeMap::pop_first')
+def _(ex, a):
+    m = ex.deref(a[0])
+    if not m.f:
+        return NONE()
+    e = m.f.pop(0)
+    return Some(Agg('tuple', [e.f[0], e.f[1]]))
+
+
+@prim('BTreeMap::pop_last')
+def _(ex, a):
+    m = ex.deref(a[0])
+    if not m.f:
+        return NONE()
+    e = m.f.pop()
+    return Some(Agg('tuple', [e.f[0], e.f[1]]))
+
+
+@prim('<BTreeMap as Index>::index')
+def _(ex, a):
+    i, found = _bt_locate(ex, a[0], a[1], keyof=True)
+    if not found:
+        raise RustPanic('BTreeMap index: key not found')
+    return Ref(a[0].cell, tuple(a[0].path) + (('i', i), ('f', 1)))
+
+
+@prim('BinaryHeap::into_sorted_vec')
+def _(ex, a):
+    c = Cell(a[0])
+    out = []
+    while c.v.f:
+        out.append(P['BinaryHeap::pop'](ex, [Ref(c)]).f[0])
+    out.reverse()
+    return Agg('Vec', out)
+
+
+@prim('slice::sort', 'slice::sort_unstable')
+def _(ex, a):
+    v = ex.deref(a[0])
+    items = v.f[:]
+    # insertion sort through the element's own Ord (stable)
+    out = []
+    for it in items:
+        c = Cell(it)
+        j = len(out)
+        while j > 0 and value_cmp(ex, Ref(c), Ref(Cell(out[j - 1]))) < 0:
+            j -= 1
+        out.insert(j, it)
+    v.f[:] = out
+    return UNIT()
